@@ -145,6 +145,7 @@ static void factor_body();
 extern "C" void harness_c23_factor() { factor_body(); }
 // the same check under a second set of bounds (higher degree over the smallest fields)
 extern "C" void harness_c23_factor_deg3() { factor_body(); }
+extern "C" void harness_c23_factor_deg4() { factor_body(); }
 static void factor_body()
 {
     P = pick_p();
@@ -170,5 +171,14 @@ static void factor_body()
         }
     }
     assert_poly(M, prod, "the factors multiply back to the monic input");
+    // square-free decomposition: prod g_i^i == monic input, with the stated multiplicities
+    std::vector<std::pair<GaloisFieldDict, unsigned>> sq = A.gf_sqf_list();
+    Vec sprod = {integer_class(1)};
+    for (auto &fm : sq) {
+        verif_assert(fm.second >= 1, "multiplicities are positive");
+        for (unsigned i = 0; i < fm.second; i++)
+            sprod = conv(sprod, fm.first.get_dict());
+    }
+    assert_poly(M, sprod, "the square-free factors with their multiplicities multiply back to the monic input");
     VERIF_END();
 }
